@@ -21,7 +21,11 @@ static HOOK: Once = Once::new();
 
 pub fn install_silent_hook() {
     HOOK.call_once(|| {
-        std::panic::set_hook(Box::new(|info| {
+        let loud = std::env::var("VP_LOUD").is_ok();
+        std::panic::set_hook(Box::new(move |info| {
+            if loud {
+                eprintln!("VP_LOUD panic: {}", info);
+            }
             let message = if let Some(s) = info.payload().downcast_ref::<&str>() {
                 s.to_string()
             } else if let Some(s) = info.payload().downcast_ref::<String>() {
